@@ -95,7 +95,6 @@ class OnlyPool(object):
 
     def __init__(self, pool, kind, hid):
         self.pool, self.kind, self.hid = pool, kind, hid
-        self.copyrel = pool.copyrel
 
     def _f(self, kind, lst):
         if kind != self.kind:
@@ -114,6 +113,9 @@ class OnlyPool(object):
 
     def minor_info(self, hid):
         return self.pool.minor_info(hid)
+
+    def is_copyrel(self, obj):
+        return self.pool.is_copyrel(obj)
 
 
 LIFE_KINDS = ('Interpolation', 'CurveFitting', 'Angle', 'Epoch', 'Earth', 'Minor')
@@ -212,7 +214,7 @@ class GenSource(object):
             # re-target an ARGUMENT of an earlier call only slightly: the repeated call must stay inside the
             # conservative domain its generator chose (any change at all is visible bit for bit)
             o = pool.handles[h]
-            self.last_mutated = id(o)
+            self.last_mutated = o          # (a reference, not an id: ids are reused once an object dies)
             if kind == 'Angle':
                 x = float(o)
                 return {'name': 'Angle.set', 'recv': {'h': h},
@@ -243,7 +245,7 @@ class GenSource(object):
             o = sim.pool.handles.get(hid)
             if o is None:
                 return False
-            if snap(o) != s0 and id(o) != self.last_mutated:
+            if snap(o) != s0 and o is not self.last_mutated:
                 return False
         return True
 
